@@ -9,6 +9,7 @@ pub mod exp;
 pub mod float;
 pub mod numeral;
 pub mod conformance;
+pub mod vectors;
 
 pub use num_bigint::{BigInt, BigUint, Sign};
 use num_integer::Integer;
